@@ -123,7 +123,7 @@ class ListWrapper(typing.MutableSequence[T]):
                 else:
                     self._data[self._data.index(marks[n])] = value
         finally:
-            self._data = [
+            self._data[:] = [
                 x for x in self._data if not any(x is m for m in marks)
             ]
 
@@ -147,6 +147,13 @@ class ListWrapper(typing.MutableSequence[T]):
 
     def __len__(self) -> int:
         return len(self._data)
+
+    def __reversed__(self) -> typing.Iterator[T]:
+        # The built-in's own reverse iterator: it looks at the list afresh
+        # at every step and stops when the list has shrunk under it. (The
+        # Sequence mixin fixes the length at the first step and raises
+        # IndexError instead.)
+        return reversed(self._data)
 
     def insert(self, i: int, v: T) -> None:
         # Let the built-in list reject an unusable index (not an integer,
